@@ -6,6 +6,7 @@ import (
 	"fmt"
 	"os"
 	"sort"
+	"sync"
 
 	"verif/harness/core"
 )
@@ -90,3 +91,5 @@ func deathViolation(prop string, d core.Death, clause string) core.Violation {
 		Events: map[string]any{"stderr_tail": d.StderrTail, "race_log": d.RaceLog},
 	}
 }
+
+var repOnce sync.Once
